@@ -123,6 +123,21 @@ pub fn spec(id: &str) -> Option<PropSpec> {
             real: &["rsdd CompressionSddBuilder with compression, VTreeManager, unique tables"],
             simulated: SIM_COMMON,
         },
+        "C10" => PropSpec {
+            id: "C10",
+            batches: vec![b("query", 60_000, 2_500_000, false)],
+            rule: "one case = one seeded run: a builder (BDD, compressed SDD, or top-down decision-DNNF over up to 3 CNFs) is populated by a short history so that handles share nodes (incl. sub-diagrams and complements), then 1-4 logical callers interleave up to 44 (thorough: 74) queries of different result types (wmc in Real / 3 finite fields / Rational / Complex / ExpectedUtility / Polynomial, evaluate, count_nodes, semantic_hash, cached_semantic_hash, bdd_fold, marginal_map, meu, bb, smooth, condition, condition_model), some repeated immediately; each answer is compared with the same query on a freshly built copy in a brand-new builder and all scratch slots of all nodes are inspected after every call. Distinct = distinct event-log hash. Non-trivial = at least 2 queries of at least 2 kinds on a non-constant diagram.",
+            states_measure: "distinct sets of query kinds exercised in one run (per builder variant)",
+            probe_prefixes: &["ScratchClear", "BddCond", "DnnfCond"],
+            assumptions: &[
+                "the oracle is 'same answer as on a freshly built copy', it does not judge whether that answer is correct (C07/C08/C12 are not claimed)",
+                "cached_semantic_hash is called with one fixed (prime, weight map) per builder, as the property states",
+                "weights are small dyadic / integer values so that all arithmetic is exact",
+                "seeded sampling, not exhaustive",
+            ],
+            real: &["rsdd RobddBuilder, CompressionSddBuilder, StandardDecisionNNFBuilder, all query code in repr/bdd.rs, repr/sdd.rs, repr/ddnnf.rs, all shipped semirings"],
+            simulated: SIM_COMMON,
+        },
         _ => return None,
     })
 }
